@@ -98,21 +98,24 @@ def sdDel : List (Nat × Id) → Nat → List (Nat × Id)
 
 /-! ### the recursions over a subtree, with a depth budget -/
 
-mutual
+/-- the visits of a list of siblings, one after the other (`for child in node.childNodes: …`) -/
+def elemsStep (rec : Id → Option (List Id)) : List Id → Option (List Id)
+  | [] => some []
+  | k :: r =>
+    match rec k, elemsStep rec r with
+    | some a, some b => some (a ++ b)
+    | _, _ => none
+
 /-- the ELEMENT nodes below and including `n`, in document order, as all three recursions
     (`_set_owner`, `rebuild_caches`, `remove_from_caches`) visit them: a non-element node is not
     entered; `none` when the subtree is deeper than the budget (RecursionError) -/
 def elems (h : Heap) : Nat → Id → Option (List Id)
   | 0, n => if (h n).kind = .elem then none else some []
   | f + 1, n =>
-    if (h n).kind = .elem then (elemsL h f (h n).kids).map (fun l => n :: l) else some []
-def elemsL (h : Heap) : Nat → List Id → Option (List Id)
-  | _, [] => some []
-  | f, k :: r =>
-    match elems h f k, elemsL h f r with
-    | some a, some b => some (a ++ b)
-    | _, _ => none
-end
+    if (h n).kind = .elem then (elemsStep (fun k => elems h f k) (h n).kids).map (fun l => n :: l) else some []
+
+/-- the element nodes below a list of siblings -/
+def elemsL (h : Heap) (f : Nat) (ks : List Id) : Option (List Id) := elemsStep (fun k => elems h f k) ks
 
 def elemsUnder (h : Heap) (n : Id) : Option (List Id) := elems h FUEL n
 
